@@ -9,7 +9,7 @@ import (
 )
 
 func init() {
-	register("C15", "Structural clause decided: (1) the own tag is stored by generateInstanceTag only on the exit edge of the `< 0x100 ⇒ redraw` loop and after the randomness error was propagated; (2) the decision table of otrV3.verifyInstanceTags over all orderings of (their, our, stored own tag, stored peer tag) equals the specified one, and the peer tag is stored only on accepting paths, with the message's sender tag; (3) theirInstanceTag has no other writer except snapshot restores on rejection; (4) every dispatch of a v3 message or fragment is behind a successful tag check, foreign-instance traffic returns before any handler; (5) header writer, header reader and the public ExtractInstanceTags helper agree on the offsets (3,7) and on the order of the two tags. Not decided: behaviour over whole histories; user-supplied own tags (InitializeInstanceTag) are taken as given.",
+	register("C15", "Structural clause decided: (1) the own tag is stored by generateInstanceTag only on the exit edge of the `< 0x100 ⇒ redraw` loop and after the randomness error was propagated; (2) the decision table of otrV3.verifyInstanceTags over all orderings of (their, our, stored own tag, stored peer tag) equals the specified one, and the peer tag is stored only on accepting paths, with the message's sender tag; (3) theirInstanceTag has no other writer except snapshot restores on rejection; (4) every dispatch of a v3 message or fragment is behind a successful tag check, foreign-instance traffic returns before any handler; (5) header writer, header reader and the public ExtractInstanceTags helper agree on the offsets (3,7) and on the order of the two tags. (restore) in receiveDecoded and receiveFragment every path that refuses the message puts the peer tag back, and after a data message the tag is what it was before it whatever the handler reported (its refusal can be silent). Not decided: behaviour over whole histories; user-supplied own tags (InitializeInstanceTag) are taken as given.",
 		func(a *An) {
 			a.c15OwnTag()
 			a.c15VerifyTable("P.tag-table")
